@@ -18,7 +18,11 @@ pub fn spec(tier: Tier) -> RelSpec {
         return RelSpec { property: "C05", cfgs: vec![mk(d, vec![SrcKind::OpenT, SrcKind::LetClosed], 1)], exh_depth: 0, exh_size: (1, 1), decides: vec![Kind::Arity, Kind::Names], keyfn };
     }
     let cfgs = match tier {
-        Tier::Quick => vec![mk(2, vec![SrcKind::OpenT, SrcKind::LetClosed, SrcKind::SubClosed, SrcKind::Literal], 1)],
+        Tier::Quick => vec![
+            mk(2, vec![SrcKind::OpenT, SrcKind::LetClosed, SrcKind::SubClosed, SrcKind::Literal], 1),
+            // sort / aggregate / projection interplay one step deeper over the small Split alphabet
+            GenCfg { depth: 3, sources: vec![SrcKind::OpenT, SrcKind::LetClosed], max_joins: 1, letters: Letters::Split },
+        ],
         // depth 2 over all source kinds with two joins, and every depth-3 program over the two basic source kinds
         Tier::Thorough => vec![mk(2, vec![SrcKind::OpenT, SrcKind::LetClosed, SrcKind::SubClosed, SrcKind::Literal, SrcKind::LetSorted], 2), mk(3, vec![SrcKind::OpenT, SrcKind::LetClosed], 1)],
     };
